@@ -8,6 +8,7 @@ package main
 //   mon.c14.pair mode=… A=… B=…  monitor: two different messages must not share sign bytes in that mode
 
 import (
+	"github.com/cosmos/cosmos-sdk/x/authz"
 	"bytes"
 	"fmt"
 	"math/rand"
@@ -53,6 +54,16 @@ func (e *sbEnv) signBytesOf(m sdk.Msg, mode signing.SignMode, a *Acct) ([]byte, 
 
 func msgLabel(e *txEnv, m sdk.Msg) string {
 	switch m := m.(type) {
+	case *authz.MsgExec:
+		inner, err := m.GetMessages()
+		if err != nil {
+			return "exec ?"
+		}
+		segs := []string{fmt.Sprintf("exec %s %d", e.addr(m.Grantee), len(inner))}
+		for _, im := range inner {
+			segs = append(segs, msgLabel(e, im))
+		}
+		return strings.Join(segs, " ; ")
 	case *didtypes.MsgCreateDIDRequest:
 		return fmt.Sprintf("did create %s %s %s %s %s %s", hxs(m.Did), docTok(m.Document), hx(docBytes(m.Document)), hxs(m.VerificationMethodId), hx(m.Signature), e.addr(m.FromAddress))
 	case *didtypes.MsgUpdateDIDRequest:
@@ -176,6 +187,16 @@ func init() {
 			&aoltypes.MsgAddWriterRequest{TopicName: "t", Description: "\xe9", WriterAddress: w, OwnerAddress: o})
 		pairU(&pnfttypes.MsgCreateDenomRequest{Id: "d", Name: "n", Symbol: "s", Description: "\xff", Creator: o},
 			&pnfttypes.MsgCreateDenomRequest{Id: "d", Name: "n", Symbol: "s", Description: "\xfe", Creator: o})
+		// the same messages carried inside the chain's standard delegation wrapper (authz MsgExec): the wrapper's sign
+		// bytes contain the inner messages, which must still be told apart by type
+		{
+			wrap := func(m sdk.Msg) sdk.Msg { x := authz.NewMsgExec(A.Addr, []sdk.Msg{m}); return &x }
+			pair(wrap(aw0), wrap(dw))
+			pair(wrap(aw0), wrap(ar0))
+			pair(wrap(dw), wrap(ar0))
+			pair(wrap(cr), wrap(up))
+			pair(wrap(&pnfttypes.MsgBurnPNFTRequest{DenomId: "d", Id: "1", Burner: o}), wrap(&pnfttypes.MsgDeleteDenomRequest{Id: "d", Remover: o}))
+		}
 		pair(aw0, dw)
 		pair(aw0, ar0)
 		pair(dw, ar0)
